@@ -114,46 +114,53 @@ def _check_own(ctx):
     for f, vt in zip(regs, vtypes):
         col = f["name"]
         getters = [g for g in inner_fns if fields_touched(g) == {col} and any((t.get("callee") or "").endswith("BTreeMap::<K, V, A>::get") for b, t in g.calls())]
-        inserters = [g for g in inner_fns if fields_touched(g) == {col} and any((t.get("callee") or "").endswith("BTreeMap::<K, V, A>::insert") for b, t in g.calls())]
-        if not ctx.check(len(getters) == 1 and len(inserters) == 1, "registry-column", col + ":getter+inserter",
-                         "registry %s has %d getter(s) and %d inserter(s) (a getter/inserter touching exactly this field)" % (col, len(getters), len(inserters))):
+        is_insert = lambda t: (t.get("callee") or "").endswith("BTreeMap::<K, V, A>::insert")
+        # an inserter is a method that only touches this registry and inserts into it; the creator is the method that
+        # opens the map and (itself or through such a wrapper) inserts the handle.  Both spellings are analysed as one
+        # body: the creator with the wrapper written out.
+        wrappers = [g_ for g_ in inner_fns if fields_touched(g_) == {col} and any(is_insert(t) for b, t in g_.calls())
+                    and not (open_fn is not None and calls_to(prog, g_, target_fn=open_fn))]
+        if not ctx.check(len(getters) == 1, "registry-column", col + ":getter+inserter",
+                         "registry %s has %d getter(s) (a getter touching exactly this field)" % (col, len(getters))):
             continue
-        g, ins = getters[0], inserters[0]
+        g = getters[0]
         ctx.touch(g)
-        ctx.touch(ins)
         # getter: get(name) cloned
         gb, gt = [(b, t) for b, t in g.calls() if (t.get("callee") or "").endswith("::get")][0]
         k = leaf_origins(prog, g, gt["args"][1], at=gb, terminal_only=True)
         cloned = any((t.get("callee") or "").endswith("Option::<&T>::cloned") or (t.get("callee") or "").endswith("::cloned") for b, t in g.calls())
         ctx.check(bool(k) and all(y.kind == "param" and y.data == 2 for y in k) and cloned, "registry-column", col + ":getter",
                   "the getter of %s does not return a clone of the handle registered under its name argument" % col, where=where(g))
-        # inserter: insert(name.to_string(), child)
-        ib, it = [(b, t) for b, t in ins.calls() if (t.get("callee") or "").endswith("::insert")][0]
-        k = _strip_to_string(prog, ins, leaf_origins(prog, ins, it["args"][1], at=ib, terminal_only=True))
-        v = leaf_origins(prog, ins, it["args"][2], at=ib, terminal_only=True)
-        ctx.check(bool(k) and all(y.kind == "param" and y.data == 2 for y in k) and bool(v) and all(y.kind == "param" and y.data == 3 for y in v),
-                  "registry-column", col + ":inserter", "the inserter of %s does not insert its child under its name argument" % col, where=where(ins))
-        creators = [c for c in inner_fns if calls_to(prog, c, target_fn=ins)]
-        if not ctx.check(len(creators) == 1, "registry-column", col + ":creator", "registry %s has %d creators" % (col, len(creators))):
+        wrapper_ids = {w.id for w in wrappers}
+        from .inline import virtual_inline
+        creators = []
+        for c_ in inner_fns:
+            if open_fn is None or not calls_to(prog, c_, target_fn=open_fn):
+                continue
+            cv = virtual_inline(prog, c_, lambda f_: f_.id in wrapper_ids)
+            if any(is_insert(t) and col in _fields_of_receiver(prog, cv, b, t) for b, t in cv.calls()):
+                creators.append((c_, cv))
+        ctx.check(len(wrappers) <= 1, "registry-column", col + ":inserter", "registry %s has %d separate inserter methods" % (col, len(wrappers)))
+        if not ctx.check(len(creators) == 1, "registry-column", col + ":creator", "registry %s has %d creators (methods that open a map and insert it into this registry)" % (col, len(creators))):
             continue
-        c = creators[0]
+        c, cv = creators[0]
         ctx.touch(c)
         ok = False
         if open_fn is not None:
-            os_ = calls_to(prog, c, target_fn=open_fn)
-            isites = calls_to(prog, c, target_fn=ins)
-            ok = len(os_) == 1 and len(isites) == 1 and c.dominates(os_[0][0], isites[0][0])
+            os_ = calls_to(prog, cv, target_fn=open_fn)
+            isites = [(b, t) for b, t in cv.calls() if is_insert(t) and col in _fields_of_receiver(prog, cv, b, t)]
+            ok = len(os_) == 1 and len(isites) == 1 and cv.dominates(os_[0][0], isites[0][0])
             if ok:
                 ob, ot = os_[0]
                 ok = vt in (ot.get("callee_full") or "") or vt in " ".join(ot.get("gargs", []))
-                nm = leaf_origins(prog, c, ot["args"][1], at=ob, terminal_only=True)
-                pr = leaf_origins(prog, c, ot["args"][2], at=ob, terminal_only=True)
-                dr = leaf_origins(prog, c, ot["args"][0], at=ob, terminal_only=True)
+                nm = leaf_origins(prog, cv, ot["args"][1], at=ob, terminal_only=True)
+                pr = leaf_origins(prog, cv, ot["args"][2], at=ob, terminal_only=True)
+                dr = leaf_origins(prog, cv, ot["args"][0], at=ob, terminal_only=True)
                 ok = ok and all(y.kind == "param" and y.data == 2 for y in nm) and bool(nm) and all(y.kind == "param" and y.data == 3 for y in pr) and bool(pr)
                 ok = ok and any(y.kind == "call" and (y.data.get("callee") or "").endswith("FileDbInner::path") for y in dr)
-                inm = leaf_origins(prog, c, isites[0][1]["args"][1], at=isites[0][0], terminal_only=True)
-                ich = leaf_origins(prog, c, isites[0][1]["args"][2], at=isites[0][0], terminal_only=True)
-                ok = ok and bool(inm) and all(y.kind == "param" and y.data == 2 for y in inm) and bool(ich) and all(is_call_to(prog, c, y, open_fn) for y in ich)
+                inm = _strip_to_string(prog, cv, leaf_origins(prog, cv, isites[0][1]["args"][1], at=isites[0][0], terminal_only=True))
+                ich = leaf_origins(prog, cv, isites[0][1]["args"][2], at=isites[0][0], terminal_only=True)
+                ok = ok and bool(inm) and all(y.kind == "param" and y.data == 2 for y in inm) and bool(ich) and all(is_call_to(prog, cv, y, open_fn) for y in ich)
         ctx.check(ok, "registry-column", col + ":creator-wiring",
                   "the creator of %s does not open FileDbMap<%s> in the database directory with the name and parameters it was given and register it under the same name" % (col, short(vt)), where=where(c))
         # top-level method: lookup, create on None, lookup
@@ -187,7 +194,7 @@ def _check_own(ctx):
                     if some_e is not None and none_e is not None:
                         none_dom = t.dominates(none_e, cs[0][0]) and not t.dominates(some_e, cs[0][0])
                         # the Some arm returns the registered handle
-                        ret_ok = cs[0][0] not in t.reachable(some_e)
+                        ret_ok = cs[0][0] not in t.reachable_ok(some_e)
                         none_dom = none_dom and ret_ok
             ctx.check(none_dom, "lookup-before-create", col,
                       "%s can open the map's files again although a handle for that name is already registered (two states for one map)" % t.name, where=where(t, cs[0][0]))
@@ -262,6 +269,16 @@ def _check_own(ctx):
                 if s["s"] == "assign" and s["rhs"]["rv"] == "agg" and s["rhs"].get("adt") == INNER:
                     aggs.append(fn.id)
     ctx.check(set(aggs) == {io.id}, "handles-share-state", "inner-constructed-once", "FileDbXxxInner is constructed in %s" % sorted(set(short(a) for a in aggs)))
+
+
+def _fields_of_receiver(prog, fn, b, t):
+    """names of FileDbInner fields the receiver (argument 0) of a call refers to"""
+    out = set()
+    for o in origins(prog, fn, t["args"][0], at=b):
+        for p_ in o.proj:
+            if p_.startswith("f:") and p_.rsplit(".", 1)[0].endswith("FileDbInner"):
+                out.add(p_.rsplit(".", 1)[1])
+    return out
 
 
 def _strip_to_string(prog, fn, os_):
